@@ -638,3 +638,38 @@ where
         f();
     }
 }
+
+/// Verification hooks (compiled only with `--cfg rustfmt_verif`).
+#[cfg(rustfmt_verif)]
+pub(crate) mod verif {
+    use super::*;
+
+    /// (line, kind, found, max, is_comment, is_string); kind numbered in the
+    /// declaration order of `ErrorKind` (0 = LineOverflow, 1 = TrailingWhitespace, ...).
+    pub(crate) fn error_fields(e: &FormattingError) -> (usize, u8, usize, usize, bool, bool) {
+        let (kind, found, max) = match e.kind {
+            ErrorKind::LineOverflow(found, max) => (0, found, max),
+            ErrorKind::TrailingWhitespace => (1, 0, 0),
+            ErrorKind::DeprecatedAttr => (2, 0, 0),
+            ErrorKind::BadAttr => (3, 0, 0),
+            ErrorKind::IoError(_) => (4, 0, 0),
+            ErrorKind::ModuleResolutionError(_) => (5, 0, 0),
+            ErrorKind::ParseError => (6, 0, 0),
+            ErrorKind::VersionMismatch => (7, 0, 0),
+            ErrorKind::LostComment => (8, 0, 0),
+            ErrorKind::InvalidGlobPattern(_) => (9, 0, 0),
+        };
+        (e.line, kind, found, max, e.is_comment, e.is_string)
+    }
+
+    /// `format_lines` on a given buffer.
+    pub(crate) fn run_format_lines(
+        text: &mut String,
+        name: &FileName,
+        skipped_range: &[(usize, usize)],
+        config: &Config,
+        report: &FormatReport,
+    ) {
+        format_lines(text, name, skipped_range, config, report)
+    }
+}
